@@ -73,6 +73,7 @@ where
 
     let min_shift = read_min_shift(reader)?;
     let depth = read_depth(reader)?;
+    validate_min_shift_and_depth(min_shift, depth)?;
 
     let header = read_aux(reader).map_err(ReadError::InvalidHeader)?;
 
@@ -127,6 +128,32 @@ where
 {
     let n = read_i32_le(reader)?;
     u8::try_from(n).map_err(ReadError::InvalidDepth)
+}
+
+// Positions are calculated by shifting by up to `min_shift + 3 * depth` bits, and the number of
+// bins (`(8^(depth + 1) - 1) / 7`) is calculated as a 32-bit integer.
+pub(crate) fn validate_min_shift_and_depth(min_shift: u8, depth: u8) -> io::Result<()> {
+    const MAX_DEPTH: u8 = 9;
+
+    if min_shift == 0 {
+        return Err(io::Error::new(
+            io::ErrorKind::InvalidData,
+            "invalid min shift",
+        ));
+    }
+
+    if depth > MAX_DEPTH {
+        return Err(io::Error::new(io::ErrorKind::InvalidData, "invalid depth"));
+    }
+
+    if u32::from(min_shift) + 3 * u32::from(depth) >= usize::BITS {
+        return Err(io::Error::new(
+            io::ErrorKind::InvalidData,
+            "invalid min shift",
+        ));
+    }
+
+    Ok(())
 }
 
 fn read_unplaced_unmapped_record_count<R>(reader: &mut R) -> Result<Option<u64>, ReadError>
